@@ -169,10 +169,13 @@ claim("C09", "TLC-certified poses + relational trace validation of real descript
       "stockholder_weight_descriptor; channels none/d_norm/esp; l_max 4..12) is run on coordinates that TLC certifies to be the word applied to the base, and the descriptor "
       "must equal the identity-pose descriptor within Tol(word class, l_max): 5e-3 for translation/permutation words, a non-increasing table (0.15/0.10/0.08) for words "
       "containing a rotation. Radii returned by the public radial solvers must lie in the bounds and satisfy the isovalue equation (2e-3), and probes whose bounds cannot "
-      "contain the surface must raise.",
+      "contain the surface must raise. Molecules and atoms in their crystal: Crystal.molecular_shape_descriptors and "
+      "Crystal.atomic_shape_descriptors on different listings of one P1 crystal (cell origin moved, atoms re-ordered, a doubled cell; each listing certified by "
+      "Descriptor!CApplyWord) must give the same set of descriptor rows within 5e-3.",
       "Relational oracle only (the thinnest specification of the twenty, as the design says): the descriptor values themselves are not computed in TLA+; rotation tolerance is "
       "dominated by the discretisation error of the non-band-limited radial function, so sub-percent rotation defects (e.g. the N-slice defect, caught exactly by C08) are below it; "
-      "Crystal.*_shape_descriptors are not driven.")
+      "Molecule.atomic_shape_descriptors and the functional-group descriptors of Crystal are not driven; molecules are bonded clusters "
+      "(TLC guard OneMolecule: scattered atoms are not a molecule and the radial search may legitimately find no single surface).")
 
 claim("C07", "TLC trace validation against scipy reference harmonics with exact Gaussian-integer coefficient state + model checking of layouts, grid rule and completion",
       "SHT.tla keeps the abstract state of a function as its exact coefficient vector over Gaussian integers plus a representation tag, and specifies the two coefficient "
